@@ -5,12 +5,13 @@
 import Pdlv.JavaSpec
 import Pdlv.Lemmas.JavaArrays
 import Pdlv.Lemmas.JavaEnumArrays
+import Pdlv.Lemmas.JavaStructSame
 import Pdlv.Lemmas.Local
 
 namespace Pdlv
 namespace JavaSpec
 
-open Java (RelC RelP SameFields items_same2)
+open Java (RelC RelP SameFields items_same2 items_same3)
 
 def ideal (c : Cfg) : Cfg := { e := c.e, mode := .ideal }
 
@@ -34,15 +35,13 @@ theorem assemble_rel (sa sb : DState) (h : RelC sa sb) (copied : List (String ×
 /-- one level: the emitted parser of the child's own fields on the parent's payload, nothing left over, is the reference's
     `decode_partial` once the constraints hold -/
 theorem own_step (c : Cfg) (nm : String) (parent : Body) (cs allCs : List (String × Nat)) (items : Items)
-    (hp : parent.hasPayload = true) (hw : Java.decWfItems2 items = true) (pv : Value)
+    (hp : parent.hasPayload = true) (hw : Java.decWfItems3 items = true) (pv : Value)
     (hv : violated parent pv cs = false) (hb : (payloadOf pv).length < 2 ^ 31) (st : DState) (rest : Bytes)
     (h0 : Java.decItemsS c.e items (payloadOf pv) DState.empty = .ok (st, rest)) (hr : rest.isEmpty = true) :
     refChild c (.derived nm parent cs allCs items) pv =
       .ok (assemble st (pv.fields.filter fun (k, _) => k != "payload" && !(cs.any (·.1 == k)))) := by
-  have h : Java.decItems c.e items (payloadOf pv) DState.empty = .ok (st, rest) := by
-    rw [← Java.decItemsS_eq c.e items hw]; exact h0
-  have hs := items_same2 c.e items hw (payloadOf pv) hb DState.empty DState.empty ⟨rfl, rfl, fun _ => rfl, fun _ => rfl⟩
-  obtain ⟨⟨sb, rb⟩, h3, h4, h5⟩ := hs.1 _ h
+  have hs := items_same3 c.e items hw (payloadOf pv) hb DState.empty DState.empty ⟨rfl, rfl, fun _ => rfl, fun _ => rfl⟩
+  obtain ⟨⟨sb, rb⟩, h3, h4, h5⟩ := hs.1 _ h0
   simp only at h4 h5
   subst h5
   have hfin : ∀ pb : Bytes, Pdlv.decItems { e := c.e, mode := .ideal } items pb DState.empty = .ok (sb, rest) →
@@ -211,13 +210,88 @@ theorem ownWidth_static : ∀ (is : Items) (w : Nat), Java.decWfItems2 is = true
       | struct _ _ => simp [Java.decWfItems2] at hw
       | custom _ _ => simp [Java.decWfItems2] at hw
 
+/-- the same on the class with struct-typed fields -/
+theorem ownWidth_static3 : ∀ (is : Items) (w : Nat), Java.decWfItems3 is = true → ownWidth is = some w →
+    ∃ n, staticItems is = some n ∧ w = 8 * n ∧ localWfItems is = true
+  | .nil, w, _, h => by
+    simp only [ownWidth, Option.some.injEq] at h
+    exact ⟨0, rfl, by omega, rfl⟩
+  | .cons i r, w, hw, h => by
+    cases i with
+    | typedef id ty sb =>
+      cases ty with
+      | struct nm b =>
+        cases b with
+        | root snm sitems =>
+          cases sb with
+          | some k =>
+            simp only [Java.decWfItems3, Bool.and_eq_true, Bool.not_eq_true', beq_iff_eq] at hw
+            obtain ⟨⟨⟨⟨h1, h2⟩, h3⟩, h4⟩, h5⟩ := hw
+            simp only [ownWidth, Option.map_eq_some_iff] at h
+            obtain ⟨w', hw', rfl⟩ := h
+            obtain ⟨n, hn, rfl, hl⟩ := ownWidth_static3 r w' h5 hw'
+            refine ⟨k + n, by simp [staticItems, staticItem, staticTy, staticBody, h3, hn], by omega,
+              by simp [localWfItems, localWfItem, localWfTy, h4, hl]⟩
+          | none => simp [Java.decWfItems3] at hw
+        | derived a1 a2 a3 a4 a5 => simp [Java.decWfItems3] at hw
+      | scalar _ => simp [Java.decWfItems3] at hw
+      | enumTy _ _ => simp [Java.decWfItems3] at hw
+      | custom _ _ => simp [Java.decWfItems3] at hw
+    | optional a b c d => simp [Java.decWfItems3] at hw
+    | chunk fs =>
+      simp only [Java.decWfItems3, Bool.and_eq_true] at hw
+      simp only [ownWidth, Option.map_eq_some_iff] at h
+      obtain ⟨w', hw', rfl⟩ := h
+      obtain ⟨n, hn, rfl, hl⟩ := ownWidth_static3 r w' hw.2 hw'
+      obtain ⟨n1, hn1, he1, hl1⟩ := ownWidth_static (.cons (.chunk fs) .nil) (chunkBits fs) hw.1 (by simp [ownWidth])
+      simp only [staticItems, staticItem, Option.some.injEq] at hn1
+      refine ⟨chunkBits fs / 8 + n, by simp [staticItems, staticItem, hn], by omega, by simp [localWfItems, localWfItem, hl]⟩
+    | payload m => simp [ownWidth] at h
+    | array id elem ew shape pad =>
+      simp only [Java.decWfItems3, Bool.and_eq_true] at hw
+      -- the width of the array alone, from the class-2 lemma on the singleton list
+      cases hsingle : ownWidth (.cons (.array id elem ew shape pad) .nil) with
+      | none =>
+        exfalso
+        cases ew <;> cases shape <;> cases pad <;> simp_all [ownWidth]
+      | some w1 =>
+        obtain ⟨n1, hn1, he1, hl1⟩ := ownWidth_static _ w1 hw.1 hsingle
+        have hrest : ∃ w', ownWidth r = some w' ∧ w = w1 + w' := by
+          cases ew with
+          | static k =>
+            cases shape with
+            | static cnt =>
+              cases pad with
+              | none =>
+                simp only [ownWidth, Option.map_some, Option.some.injEq, Nat.add_zero] at hsingle
+                simp only [ownWidth, Option.map_eq_some_iff] at h
+                obtain ⟨w', hw', rfl⟩ := h
+                exact ⟨w', hw', by omega⟩
+              | some _ => simp [ownWidth] at hsingle
+            | countField => simp [ownWidth] at hsingle
+            | sizeField => simp [ownWidth] at hsingle
+            | unknown => simp [ownWidth] at hsingle
+          | dynamic => simp [ownWidth] at hsingle
+          | unknown => simp [ownWidth] at hsingle
+        obtain ⟨w', hw', rfl⟩ := hrest
+        obtain ⟨n, hn, rfl, hl⟩ := ownWidth_static3 r w' hw.2 hw'
+        subst he1
+        simp only [staticItems] at hn1
+        cases hsi : staticItem (.array id elem ew shape pad) with
+        | none => simp [hsi] at hn1
+        | some a =>
+          simp only [hsi, Option.some.injEq, Nat.add_zero] at hn1
+          subst hn1
+          simp only [localWfItems, Bool.and_eq_true, Bool.and_true] at hl1
+          exact ⟨a + n, by simp [staticItems, hsi, hn], by omega, by simp [localWfItems, hl1, hl]⟩
+
 /-- a child whose static width is not the payload's length is one the reference's `decode_partial` rejects -/
 theorem unfit_width (c : Cfg) (nm : String) (parent : Body) (cs allCs : List (String × Nat)) (items : Items)
-    (hp : parent.hasPayload = true) (hwi : Java.decWfItems2 items = true) (w : Nat) (how : ownWidth items = some w) (pv : Value)
+    (hp : parent.hasPayload = true) (hwi : Java.decWfItems3 items = true) (w : Nat) (how : ownWidth items = some w) (pv : Value)
     (hne : ((payloadOf pv).length == w / 8) = false) (v : Value) :
     refChild c (.derived nm parent cs allCs items) pv ≠ .ok v := by
   intro h
-  obtain ⟨n, hn, rfl, hl⟩ := ownWidth_static items w hwi how
+  obtain ⟨n, hn, rfl, hl⟩ := ownWidth_static3 items w hwi how
   have hex := decItems_exact_len (ideal c) items n DState.empty hn hl
   have hlen : (payloadOf pv).length ≠ n := by
     intro he
